@@ -285,6 +285,9 @@ ComputeCompositeRegion(rq, ret, reported) ==
     /\ Canon(reported) = CompositeRegion(rq)
     /\ UNCHANGED <<img, reg, mem>>
 
+(* The boxes may have ANY int32 coordinates (beyond what a composite request can carry, empty, inverted):   *)
+(* FillRegion only compares coordinates, never subtracts them, so the region boxes /\ clip /\ image is    *)
+(* exact for all of them; those pixels get op(colour, dest), nothing else changes.                        *)
 (* pixman_image_fill_boxes(op, dest, colour, boxes): the result of compositing a solid image of that    *)
 (* colour over each box; `ref' is the buffer obtained on a copy of the destination by that other route *)
 FillBoxes(op, col, boxes, ref) ==
